@@ -745,6 +745,8 @@ package commands
 //@   ensures result1 == nil && oid != fs.EmptyObjectSHA256 ==> result0 == objpath(oid)
 //@   ensures result1 == nil && oid == fs.EmptyObjectSHA256 ==> result0 == devnull
 //@   ensures !err_cleanptr(result1)
+//@   requires @inv f != nil
+//@   at call (*fs.Filesystem).ObjectPath:1 assert arg0__ == f.fs && arg1__ == oid
 
 // C04, fetch side: an object is left out of a fetch only if it was already
 // handled in this run (dry-run / refetch bookkeeping), is empty, or exists
